@@ -1,10 +1,51 @@
-(* C05 -- the property theorems and nothing else (each closed by `exact <lemma>`). *)
+(* C05 -- the property theorems and nothing else (each closed by `exact <lemma>`).
+   Representation (C05/KNDefs.v): words are ids (0 <unk>, 1 <s>, 2 </s>), an n-gram is the list of its words NEWEST
+   FIRST; events c = the reversed prefixes of the <s>..</s> delimited sentences; `table n o ev` = per order the
+   duplicate-free suffix-ordered n-grams with adjusted count and pruning mark (KNSpec.v); kn_spec = table followed by
+   discounts, uninterpolated probabilities, gammas and interpolation over exact rationals. *)
 From Coq Require Import List NArith ZArith QArith Bool.
-From Kenlm Require Import C05.KNDefs C05.KNSpec C05.KNModel C05.KNWitness.
+From Kenlm Require Import C05.KNDefs C05.KNSpec C05.KNModel C05.KNWitness C05.KNLex C05.KNAdjustD C05.KNAdjustF C05.KNNgramSet.
 Import ListNotations.
 
-(* The unrepaired final flush (F1): there is a corpus on which the counts-of-counts collected by the streaming
-   AdjustCounts loop differ from the specification's. *)
+(* F1, the unrepaired final flush (fix_stat = false): there is a corpus on which the counts-of-counts collected by the
+   streaming AdjustCounts loop differ from the specification's -- witness  a b / b b / b b / b c c c, order 2. *)
 Theorem C05_stats_last_ngram_refuted : exists c n o,
   snd (adjust false true n o (sorted_counts n (events c))) <> map order_stat (table n o (events c)).
 Proof. exists f1_corpus, 2%nat, opts0. exact f1_stats_differ. Qed.
+
+(* ... and the discounts every probability is computed from are different: 1/3, 0, 3 instead of 1/5, 17/10, 3. *)
+Theorem C05_discounts_last_ngram_refuted :
+  discounts_of (kn_impl_gen false true f1_corpus 2 opts0) = [((1#3, 0), 3); ((1#2, 1#2), 3)]
+  /\ discounts_of (kn_spec f1_corpus 2 opts0) = [((1#5, 17#10), 3); ((1#2, 1#2), 3)].
+Proof. exact f1_discounts_differ. Qed.
+
+(* The repaired streaming loop (lower_valid stack, actual_counts, the three STEPs, final flush, StatCollector, CollapseStream)
+   run on the sorted padded n-grams of ANY corpus, for ANY order >= 1 and any pruning options, delivers exactly the
+   declarative tables: same n-grams in the same order, same adjusted counts, same pruning marks, and the same
+   counts-of-counts statistics. *)
+Theorem C05_adjust_counts_refines_spec : forall (c : corpus) (n : nat) (o : options),
+  (1 <= n)%nat -> (forall k, (thr o k < MAX64)%N) ->
+  adjust true true n o (sorted_counts n (events c)) = (table n o (events c), map order_stat (table n o (events c))).
+Proof. exact adjust_counts_refines_spec. Qed.
+
+(* Hence the model of the pipeline equals the specification (stages after AdjustCounts are shared definitions). *)
+Theorem C05_impl_refines_spec : forall (c : corpus) (n : nat) (o : options),
+  (1 <= n)%nat -> (forall k, (thr o k < MAX64)%N) -> kn_impl c n o = kn_spec c n o.
+Proof. exact impl_refines_spec. Qed.
+
+(* The n-grams of order k are exactly the windows of the delimited sentences, plus <unk> and <s> among the unigrams ... *)
+Theorem C05_ngram_set : forall (c : corpus) k g, In g (grams (events c) k) <->
+  (k = 1%nat /\ (g = [UNK] \/ g = [BOS])) \/ (exists e, In e (events c) /\ (k <= length e)%nat /\ g = firstn k e).
+Proof. intros c. exact (In_grams (events c)). Qed.
+
+(* ... and what is written for order k is that list minus exactly the n-grams marked for pruning (true count at or below
+   the threshold, or an excluded word; never a special unigram). *)
+Theorem C05_emitted_ngrams : forall (c : corpus) n o m k, kn_spec c n o = Built m -> (1 <= k <= n)%nat ->
+  map a_gram (nth (k - 1) (m_orders m) []) = filter (fun g => negb (marked o (events c) k g)) (grams (events c) k).
+Proof. exact emitted_ngrams. Qed.
+
+(* without pruning options nothing is removed *)
+Theorem C05_emitted_ngrams_unpruned : forall (c : corpus) n o m k, kn_spec c n o = Built m -> (1 <= k <= n)%nat ->
+  (forall j, thr o j = 0%N) -> o_limit o = None ->
+  map a_gram (nth (k - 1) (m_orders m) []) = grams (events c) k.
+Proof. exact emitted_ngrams_unpruned. Qed.
